@@ -726,22 +726,36 @@ def rule_HS1(ctx, rep):
     rcalls = calls_named(dr.node, '_prss_keys_from_peer')
     pmc = parents(cm.node)
 
-    def guards(node, pmx, stop):
-        return sorted(norm(i.test) + ':' + br for i, br in enclosing_ifs(node, pmx, stop=stop) if 'no_prss' in norm(i.test))
+    from . import cond
+
+    def prss_ctx(fn, node, pmx):
+        """path condition of node, restricted to the PRSS option"""
+        return cond.project(cond.context(fn, node, pmx), lambda a: 'no_prss' in a)
     if len(wcall) == 1 and len(rcalls) == 2:
-        gwr = guards(wcall[0], pmc, cm.node)
-        if gwr and all(guards(c, pmd, dr.node) == gwr for c in rcalls):
-            rep.ok('HS1', dr, rcalls[0], f'keys are written and read under the same option test ({gwr[0]})')
+        gwr = prss_ctx(cm, wcall[0], pmc)
+        if 'no_prss' in cond.fmt(gwr) and all(cond.equivalent(prss_ctx(dr, c, pmd), gwr) for c in rcalls):
+            rep.ok('HS1', dr, rcalls[0], f'keys are written and read under the same option test ({cond.fmt(gwr)})')
         else:
             rep.bad('HS1', dr, rcalls[0], 'key sending and key reading are not governed by the same no_prss test: one side sends keys the other does not expect')
         # size call has no data, store call has the buffer; same peer argument
-        a0 = {norm(c.args[0]) for c in rcalls}
+        a0 = {norm(routes.xp(dr, c.args[0], c, pmd)) for c in rcalls}
         if len(a0) == 1 and sorted(len(c.args) for c in rcalls) == [1, 2]:
             rep.ok('HS1', dr, rcalls[1], 'length computed and keys stored for the same peer id')
         else:
             rep.bad('HS1', dr, rcalls[1], 'length computation and key storing use different peers / arities')
-        # writer: extends the same list that starts with the pid, sent in one writelines
-        if calls_named(cm.node, 'writelines') and calls_named(cm.node, 'extend'):
+        # writer: the keys are appended to the list that starts with the pid, sent in one writelines
+        wl = calls_named(cm.node, 'writelines')
+        okw = False
+        if len(wl) == 1 and wl[0].args and isinstance(wl[0].args[0], ast.Name):
+            L = wl[0].args[0].id
+            init = [v for _, v, how in definitions(cm.node, L) if how == 'assign' and isinstance(v, ast.List)]
+            par = pmc.get(id(wcall[0]))
+            appended = (isinstance(par, ast.Call) and attr_tail(par.func) == 'extend' and norm(par.func.value) == L) or \
+                (isinstance(par, ast.AugAssign) and isinstance(par.op, ast.Add) and norm(par.target) == L) or \
+                (isinstance(par, ast.BinOp) and isinstance(par.op, ast.Add) and norm(par.left) == L)
+            okw = bool(init) and len(init[0].elts) == 1 and any(c is tb[0] for c in ast.walk(init[0].elts[0])) and appended \
+                and astq.position(wcall[0]) < astq.position(wl[0])
+        if okw:
             rep.ok('HS1', cm, wcall[0], 'pid followed by the keys, in enumeration order')
         else:
             rep.bad('HS1', cm, wcall[0], 'the keys are not appended after the pid in one handshake')
@@ -813,25 +827,37 @@ def rule_KEY1(ctx, rep):
         rep.bad('KEY1', setter, setter.qualname, 'generated keys are not installed as self._prss_keys under their subset', setter.node)
     # cache invalidation on the generating path
     cc = [c for c in calls_named(setter.node, 'cache_clear') if norm(c.func.value) == 'self.prfs']
-    pm = parents(setter.node)
-    if cc and not enclosing_ifs(cc[0], pm, stop=setter.node) and not enclosing_loops(cc[0], pm, stop=setter.node) \
-            and not enclosing_ifs(lp, pm, stop=setter.node):      # NB: the early `return` under no_prss is not an enclosing if
+    from . import cond
+    # the cache is cleared on every path on which new keys are installed (path conditions as formulas)
+    gen_ctx = cond.context(setter, tok, pm)
+    okcc = False
+    for c_ in cc:
+        if enclosing_loops(c_, pm, stop=setter.node):
+            continue
+        if not cond.satisfiable(cond.conj([gen_ctx, cond.neg(cond.context(setter, c_, pm))])):
+            okcc = True
+    if okcc:
         rep.ok('KEY1', setter, cc[0], 'cached PRFs are invalidated whenever keys are regenerated')
     else:
         rep.bad('KEY1', setter, setter.qualname, 'PRFs cached by prfs() are not invalidated when the keys are regenerated: after a threshold '
                 'change PRSS keeps using the old subsets and keys', setter.node)
     prfs = model.func('runtime::Runtime.prfs')
     if any('cache' in d for d in prfs.decorators):
-        fl = [s for s in iter_nodes(prfs.node) if isinstance(s, ast.For)]
-        good = len(fl) == 1 and norm(fl[0].iter) == 'self._prss_keys.items()'
+        from . import routes
+        pmp = parents(prfs.node)
+        mk = [c for c in iter_nodes(prfs.node) if isinstance(c, ast.Call) and attr_tail(c.func) == 'PRF']
+        good = False
+        if len(mk) == 1:
+            binders, guards = routes._context(prfs, mk[0], pmp)
+            b = [x for x in binders if x.kind == 'iter' and x.value_var and norm(x.src) == 'self._prss_keys']
+            if len(b) == 1 and len(binders) == 1 and not guards:
+                sv, kv = b[0].elem, b[0].value_var
+                par = pmp.get(id(mk[0]))
+                keyed = (isinstance(par, ast.Assign) and par.value is mk[0] and isinstance(par.targets[0], ast.Subscript) and norm(par.targets[0].slice) == sv) or \
+                    (isinstance(par, ast.DictComp) and par.value is mk[0] and norm(par.key) == sv)
+                good = keyed and len(mk[0].args) >= 2 and norm(mk[0].args[0]) == kv and norm(mk[0].args[1]) == prfs.params[1]
         if good:
-            a = [s for s in fl[0].body if isinstance(s, ast.Assign)]
-            tg = fl[0].target
-            good = len(a) == 1 and isinstance(tg, ast.Tuple) and norm(a[0].targets[0].slice) == norm(tg.elts[0]) \
-                and isinstance(a[0].value, ast.Call) and attr_tail(a[0].value.func) == 'PRF' and norm(a[0].value.args[0]) == norm(tg.elts[1]) \
-                and norm(a[0].value.args[1]) == prfs.params[1]
-        if good:
-            rep.ok('KEY1', prfs, fl[0], 'one PRF per held key, keyed by its subset, with the requested bound')
+            rep.ok('KEY1', prfs, mk[0], 'one PRF per held key, keyed by its subset, with the requested bound')
         else:
             rep.bad('KEY1', prfs, prfs.qualname, 'prfs() is not "one PRF per held key, keyed by its subset"', prfs.node)
     # who writes _prss_keys
@@ -918,8 +944,9 @@ def rule_CR2(ctx, rep):
 
 def rule_CR3(ctx, rep):
     """output needs all t foreign shares: recombination is dominated by the await of all of them."""
+    from . import rules_rt, routes
     model = ctx.model
-    fn = model.func('runtime::Runtime.output')
+    fn, evs, cases = rules_rt._summary(ctx, 'output')
     pm = parents(fn.node)
     rec = [c for c in iter_nodes(fn.node) if isinstance(c, ast.Call) and isinstance(c.func, ast.Name) and c.func.id == 'recombine']
     if len(rec) != 1:
@@ -927,27 +954,49 @@ def rule_CR3(ctx, rep):
     pts = rec[0].args[1]
     if not isinstance(pts, ast.Name):
         raise AnalysisError('CR3: points argument is not a name')
-    defs = definitions(fn.node, pts.id)
-    comp = [v for _, v, _ in defs if isinstance(v, ast.ListComp)]
-    if len(comp) != 1:
-        raise AnalysisError('CR3: points list comprehension not found')
-    gen = comp[0].generators[0]
-    # receive list over the same range
-    rcalls = [c for c in calls_named(fn.node, '_receive_message')]
-    if len(rcalls) != 1:
+    recvs = [e for e in evs if e.kind == 'recv']
+    if len(recvs) != 1 or recvs[0].slot is None:
         raise AnalysisError('CR3: receive site not found in output')
-    rcomp = [a for a in ancestors(rcalls[0], pm) if isinstance(a, ast.ListComp)]
-    if rcomp and norm(rcomp[0].generators[0].iter) == norm(gen.iter) and not gen.ifs and not rcomp[0].generators[0].ifs:
-        rep.ok('CR3', fn, comp[0], f'one point per requested share over {norm(gen.iter)}, no filtering')
+    r = recvs[0]
+    tuples = rules_rt._point_tuples(fn, pts.id, pm)
+    foreign = [t for t in tuples if not routes.is_self(rules_rt._plus_one(routes.xp(fn, t.elts[0], t, pm)) or ast.Constant(value=0))]
+    if not foreign:
+        raise AnalysisError('CR3: points built from received shares not found')
+    # one point per requested share: the points range over as many positions as receives are posted, unfiltered
+    ok1 = True
+    for t in foreign:
+        b_p, g_p = routes._context(fn, t, pm)
+        b_r = r.binders
+        if len(b_p) != 1 or len(b_r) != 1 or [g for g in g_p if any(isinstance(x, ast.Name) and x.id in b_p[0].names() for x in ast.walk(g[0]))]:
+            ok1 = False
+            continue
+        def size(b):
+            if b.kind == 'range':
+                return repr(b.hi - b.lo)
+            return cnorm(routes.xp(fn, b.src, b.node, pm))
+        def size2(b):
+            # enumerate([.. for j in range(t)]) has as many elements as range(t)
+            src = routes.xp(fn, b.src, b.node, pm) if b.kind != 'range' else None
+            if isinstance(src, ast.ListComp) and len(src.generators) == 1 and not src.generators[0].ifs:
+                bb = routes.binder_of(fn, src.generators[0].target, src.generators[0].iter, b.node, pm, b.node)
+                if bb is not None and bb.kind == 'range':
+                    return repr(bb.hi - bb.lo)
+            return size(b)
+        if size2(b_p[0]) != size2(b_r[0]):
+            ok1 = False
+    comp_site = foreign[0]
+    if ok1:
+        rep.ok('CR3', fn, comp_site, 'one point per requested share, no filtering')
     else:
-        rep.bad('CR3', fn, comp[0], 'the points used for recombination are not one per requested share (missing shares would be silently skipped)')
+        rep.bad('CR3', fn, comp_site, 'the points used for recombination are not one per requested share (missing shares would be silently skipped)')
     # the list of futures is awaited (gather) before the points are built, in the same branch
-    st = astq.enclosing_stmt(rcalls[0], pm)
-    lv = st.targets[0].id if isinstance(st, ast.Assign) and isinstance(st.targets[0], ast.Name) else None
-    aw = [s for s in iter_nodes(fn.node) if isinstance(s, ast.Assign) and isinstance(s.value, ast.Await) and isinstance(s.value.value, ast.Call)
-          and attr_tail(s.value.value.func) == 'gather' and lv and any(norm(a) == lv for a in s.value.value.args)]
-    pst = [s for s, v, _ in defs if v is comp[0]][0]
-    if aw and astq.position(st) < astq.position(aw[0]) < astq.position(pst) and mentions_name(comp[0], aw[0].targets[0].id if isinstance(aw[0].targets[0], ast.Name) else ''):
+    lv = r.slot[1]
+    st = r.slot[3] if len(r.slot) > 3 and r.slot[3] is not None else astq.enclosing_stmt(r.node, pm)
+    aw = [s_ for s_ in iter_nodes(fn.node) if isinstance(s_, ast.Assign) and isinstance(s_.value, ast.Await) and isinstance(s_.value.value, ast.Call)
+          and attr_tail(s_.value.value.func) == 'gather' and lv and any(norm(a) == lv for a in s_.value.value.args)]
+    pst = astq.enclosing_stmt(foreign[0], pm)
+    awname = aw[0].targets[0].id if aw and isinstance(aw[0].targets[0], ast.Name) else ''
+    if aw and astq.position(st) < astq.position(aw[0]) < astq.position(pst) and any(mentions_name(t, awname) for t in foreign):
         rep.ok('CR3', fn, aw[0], 'all requested shares are awaited before recombination')
     else:
         rep.bad('CR3', fn, rec[0], 'recombination is not preceded by an await of all requested shares')
